@@ -45,6 +45,7 @@ func (r *BasicPrivateTokenRequest) Marshal() []byte {
 }
 
 func (r *BasicPrivateTokenRequest) Unmarshal(data []byte) bool {
+	r.raw = nil // the cached encoding belongs to the previous value
 	s := cryptobyte.String(data)
 
 	var tokenType uint16
